@@ -12,6 +12,7 @@ for P in $ids; do
   extra=""
   [ "$P" = "C15" ] && extra="C15 C16"
   [ "$P" = "C13" ] && extra="C13 C14"
+  [ "$P" = "C17" ] && extra="C17 C07"
   python3 tools/seeded.py $P $out $wt $extra
   git -C /repo worktree remove --force $wt; rm -rf $out
 done
